@@ -257,6 +257,20 @@ def space(tier):
         yield ([("chr1", list(s1))], "PS", False, None, True)
     # interleaved / nested phase sets on two chromosomes (ALL row of the block-length columns)
     inter = [s for n in (4, 5) for s in itertools.product(["A0|1", "B0|1", "0/1"] if n == 4 else ["A0|1", "B0|1"], repeat=n) if s[0] == "A0|1" and s.count("A0|1") >= 2 and s.count("B0|1") >= 2]
+    # three chromosomes, every selection of one or two of them
+    three = [s for s in seqs if len(s) == 2][:: 2 if not T else 1]
+    for s1 in three[::3]:
+        for s2 in three[1::3]:
+            for s3 in three[2::3][:: 1 if T else 2]:
+                for sel in (["chr2", "chr3"], ["chr1", "chr3"], ["chr3"], ["chr1", "chr2"], ["chr2"]):
+                    yield ([("chr1", list(s1)), ("chr2", list(s2)), ("chr3", list(s3))], "PS", False, sel, False)
+    # a set that continues behind two nested sets on one chromosome, a two-variant set at every offset on the other
+    # (the ALL row must not let the pieces of one chromosome be cut by a block of another)
+    for c1 in (["A0|1", "A0|1", "B0|1", "B0|1", "A0|1", "A0|1", "C0|1", "C0|1", "A0|1", "A0|1"], ["A0|1", "B0|1", "B0|1", "A0|1", "C0|1", "C0|1", "A0|1"], ["A0|1", "A0|1", "B0|1", "A0|1", "B0|1", "C0|1", "A0|1", "C0|1"]):
+        for start in range(0, len(c1) - 1):
+            c2 = ["0/0"] * start + ["A0|1", "A0|1"]
+            yield ([("chr1", list(c1)), ("chr2", c2)], "PS", False, None, False)
+            yield ([("chr1", c2), ("chr2", list(c1))], "PS", False, None, False)
     for s1 in inter:
         for s2 in inter[:: 1 if T else 5] + [("A0|1", "A0|1")]:
             yield ([("chr1", list(s1)), ("chr2", list(s2))], "PS", False, None, False)
